@@ -74,7 +74,7 @@ Proof. repeat split; vm_compute; reflexivity. Qed.
 
 (* precedences, operator tables and the key sets of token_map / function_argument_map in the model are the ones
    REGENERATED from parse.py and filter_expressions.py on this run *)
-From JP Require Import Proofs.GenTies.
+From JP Require Import Proofs.TieParse.
 Theorem C02_parser_tables_regenerated : parse_tables_ok = true.
 Proof. exact parse_tables_regenerated. Qed.
 Print Assumptions C02_parser_tables_regenerated.
